@@ -29,8 +29,8 @@ var (
 )
 
 type stats struct {
-	files, sends, recvs, selects, gos, mapRanges, chanRanges, sleeps, cancels, closes, imports int
-	refused                                                                                    []string
+	files, sends, recvs, selects, gos, mapRanges, chanRanges, sleeps, cancels, closes, imports, rmws int
+	refused                                                                                          []string
 }
 
 var st stats
@@ -57,8 +57,8 @@ func main() {
 		}
 		os.Exit(2)
 	}
-	fmt.Printf("simgen: files=%d imports=%d sends=%d recvs=%d selects=%d go=%d maprange=%d chanrange=%d sleep=%d cancel=%d close=%d\n",
-		st.files, st.imports, st.sends, st.recvs, st.selects, st.gos, st.mapRanges, st.chanRanges, st.sleeps, st.cancels, st.closes)
+	fmt.Printf("simgen: files=%d imports=%d sends=%d recvs=%d selects=%d go=%d maprange=%d chanrange=%d sleep=%d cancel=%d close=%d rmw=%d\n",
+		st.files, st.imports, st.sends, st.recvs, st.selects, st.gos, st.mapRanges, st.chanRanges, st.sleeps, st.cancels, st.closes, st.rmws)
 }
 
 func rewriteModule(dir, pattern string) error {
@@ -291,8 +291,71 @@ func (r *rewriter) isPoint(n ast.Node) bool {
 		}
 	case *ast.CallExpr:
 		return r.callKind(x) != ""
+	case *ast.IncDecStmt:
+		return r.rmwTarget(x, x.X, nil)
+	case *ast.AssignStmt:
+		if x.Tok != token.ASSIGN && x.Tok != token.DEFINE && len(x.Lhs) == 1 && len(x.Rhs) == 1 {
+			return r.rmwTarget(x, x.Lhs[0], x.Rhs[0])
+		}
 	}
 	return false
+}
+
+// rmwTarget: a read-modify-write statement (x++, x--, x op= e) on memory that can be shared - a struct field or the
+// target of a pointer - standing in a plain statement list. It is split into load, scheduling point and store: for a
+// program without data races nobody can observe the difference (whoever else touches the location is excluded by
+// the same lock), but an update that is NOT protected becomes a lost update the search can reach. The operand must be
+// free of calls and receives, so that moving its evaluation behind the load changes nothing.
+func (r *rewriter) rmwTarget(stmt ast.Stmt, lhs, rhs ast.Expr) bool {
+	if !r.stmtCtx[stmt] || r.labeled[stmt] {
+		return false
+	}
+	switch x := unparen(lhs).(type) {
+	case *ast.StarExpr:
+	case *ast.SelectorExpr:
+		sel := r.info.Selections[x]
+		if sel == nil || sel.Kind() != types.FieldVal {
+			return false
+		}
+	default:
+		return false
+	}
+	if tv, ok := r.info.Types[lhs]; !ok || tv.Type == nil {
+		return false
+	} else if _, isTP := tv.Type.(*types.TypeParam); isTP {
+		return false
+	}
+	pure := true
+	check := func(e ast.Expr) {
+		if e == nil {
+			return
+		}
+		ast.Inspect(e, func(n ast.Node) bool {
+			switch u := n.(type) {
+			case *ast.CallExpr:
+				// conversions and len/cap are fine, everything else may have effects
+				if tv, ok := r.info.Types[u.Fun]; ok && tv.IsType() {
+					return true
+				}
+				if id, ok := unparen(u.Fun).(*ast.Ident); ok {
+					if _, isBuiltin := r.info.Uses[id].(*types.Builtin); isBuiltin && (id.Name == "len" || id.Name == "cap") {
+						return true
+					}
+				}
+				pure = false
+			case *ast.UnaryExpr:
+				if u.Op == token.ARROW {
+					pure = false
+				}
+			case *ast.FuncLit:
+				pure = false
+			}
+			return pure
+		})
+	}
+	check(lhs)
+	check(rhs)
+	return pure
 }
 
 func (r *rewriter) callKind(c *ast.CallExpr) string {
@@ -436,6 +499,19 @@ func (r *rewriter) rewrite(n ast.Node) string {
 			st.cancels++
 			return fmt.Sprintf("simrt.CancelCause(%s, %s)", r.render(x.Fun), r.render(x.Args[0]))
 		}
+	case *ast.IncDecStmt:
+		st.rmws++
+		p, v := r.fresh("p"), r.fresh("v")
+		op := "+"
+		if x.Tok == token.DEC {
+			op = "-"
+		}
+		return fmt.Sprintf("{ %s := &(%s); %s := *%s; simrt.RMW(); *%s = %s %s 1 }", p, r.text(x.X.Pos(), x.X.End()), v, p, p, v, op)
+	case *ast.AssignStmt:
+		st.rmws++
+		p, v := r.fresh("p"), r.fresh("v")
+		op := strings.TrimSuffix(x.Tok.String(), "=")
+		return fmt.Sprintf("{ %s := &(%s); %s := *%s; simrt.RMW(); *%s = %s %s (%s) }", p, r.text(x.Lhs[0].Pos(), x.Lhs[0].End()), v, p, p, v, op, r.text(x.Rhs[0].Pos(), x.Rhs[0].End()))
 	case *ast.GoStmt:
 		return r.rewriteGo(x)
 	case *ast.SelectStmt:
